@@ -6,7 +6,8 @@ behaviour keep the verdicts.
 """
 import re
 
-from ..armtable import Compound, LexEvaluator, Splitter
+from ..armtable import Compound, Splitter
+from ..lexvm import LexVM as LexEvaluator
 from ..facts import LANGS, interp_method, interp_ty
 from ..peval import Builder, Closure, Flags, Marker, Res, Tok, Unanalysable
 from .lexical import (ALL_LANGS, expected_ops, lexicon, spell, spell_ordinal, SCALE_CONTEXTS)
@@ -15,6 +16,11 @@ from .. import hir as H
 
 def evaluator(ctx, lang):
     return ctx.memo(('lexev', lang), lambda: LexEvaluator(ctx.facts, lang))
+
+
+def real_evaluator(ctx, lang):
+    """Same evaluator with the crate's own DigitString interpreted exactly (its state persists between words)."""
+    return ctx.memo(('lexev-real', lang), lambda: LexEvaluator(ctx.facts, lang, real=True))
 
 
 class Out:
@@ -468,47 +474,108 @@ INERT_STATES = [(b'', 0, None), (b'10', 0, None), (b'20', 0, None), (b'21', 0, N
                 (b'1000000', 0, None), (b'1000000000', 0, None), (b'1000000000000', 0, None), (b'2000000000000000', 0, None)]
 
 
+_SW_FACTS = None
+
+
+def _sweep_lang(lang):
+    """All lexicon words x INERT_STATES x {apply, apply_decimal} for one language (worker process)."""
+    class _C:
+        def __init__(self, f):
+            self.facts = f
+            self._c = {}
+
+        def memo(self, k, fn):
+            if k not in self._c:
+                self._c[k] = fn()
+            return self._c[k]
+    ctx = _C(_SW_FACTS)
+    lx = lexicon(lang)
+    words = [c['w'] for c in lx['cardinals']] + [o['w'] for o in lx['ordinals']] + lx['zero'] + [lx.get('conjunction') or 'x', lx['decimal_sep']]
+    words += ['xyzzy', 'the', 'último', 'besten', 'goede', 'ultimo', 'second', 'seconde']
+    out = {'n': 0, 'rej': 0, 'violations': [], 'errors': {}, 'baddigits': [], 'words': len(set(words))}
+    seen = set()
+    for method in ('apply', 'apply_decimal'):
+        for w in dict.fromkeys(words):
+            for d, lz, mk in INERT_STATES:
+                try:
+                    o = run(ctx, lang, w, state(d, lz, mk), method)
+                except Compound:
+                    continue
+                except Unanalysable as e:
+                    out['errors'].setdefault(method, (w, e.what))
+                    continue
+                out['n'] += 1
+                ent = '%s|%s|%s' % (lang, method, w)
+                for op in o.ops:
+                    for x in op[1:]:
+                        if isinstance(x, (bytes, bytearray)) and not (x and all(0x30 <= c <= 0x39 for c in x)):
+                            out['baddigits'].append((ent, o.sig()))
+                    if op[0] == 'put_digit_at' and not (isinstance(op[1], int) and 0x31 <= op[1] <= 0x39):
+                        out['baddigits'].append((ent, o.sig()))
+                if o.ok:
+                    if len(o.ops) != 1 and ent not in seen:
+                        seen.add(ent)
+                        out['violations'].append((ent, '%s("%s") on builder "%s" is accepted but issues %s: with more than one operation a failure of the '
+                                                  'second leaves the digits of the first behind (and none leaves the word unconverted)' % (method, w, d.decode(), o.sig())))
+                else:
+                    out['rej'] += 1
+                    if (o.ops or o.marker_written or o.froze) and ent not in seen:
+                        seen.add(ent)
+                        out['violations'].append((ent, '%s("%s") on builder "%s" returns Err(%s) but %s: a rejected word leaves a trace in the number being built' % (
+                            method, w, d.decode(), o.err,
+                            ', '.join(x for x in ['issued %s' % o.sig() if o.ops else '', 'wrote the marker %r' % (o.marker,) if o.marker_written else '',
+                                                  'froze the builder' if o.froze else ''] if x))))
+    return lang, out
+
+
+def sweep(ctx):
+    """{lang: stats} of the word x state sweep, memoised; one worker per language."""
+    def mk():
+        global _SW_FACTS
+        _SW_FACTS = ctx.facts
+        import os
+        if (os.cpu_count() or 1) < 2 or os.environ.get('T2N_NO_FORK'):
+            return dict(_sweep_lang(l) for l in ALL_LANGS)
+        import multiprocessing
+        with multiprocessing.get_context('fork').Pool(min(7, os.cpu_count() or 1)) as pool:
+            return dict(pool.map(_sweep_lang, ALL_LANGS, chunksize=1))
+    return ctx.memo(('lex-sweep',), mk)
+
+
 def rule_reject_inert(ctx, rep, langs=ALL_LANGS):
     R = 'A8b-REJECT-INERT'
     rep.rule(R, 'every word of the lexicon (plus non-number probes), evaluated on a table of builder states through apply and '
                 'apply_decimal: an accepted word issues exactly one builder operation; a rejected word issues none, writes no marker and '
                 'does not freeze — a refused word leaves no trace in the number being built')
+    sw = sweep(ctx)
     n = rej = 0
     for lang in langs:
-        lx = lexicon(lang)
-        words = [c['w'] for c in lx['cardinals']] + [o['w'] for o in lx['ordinals']] + lx['zero'] + [lx.get('conjunction') or 'x', lx['decimal_sep']]
-        words += ['xyzzy', 'the', 'último', 'besten', 'goede', 'ultimo', 'second', 'seconde']
-        seen_bad = set()
-        for method in ('apply', 'apply_decimal'):
-            for w in dict.fromkeys(words):
-                for d, lz, mk in INERT_STATES:
-                    try:
-                        o = run(ctx, lang, w, state(d, lz, mk), method)
-                    except Compound:
-                        continue
-                    except Unanalysable as e:
-                        if (lang, method) not in seen_bad:
-                            seen_bad.add((lang, method))
-                            rep.anchor(R, '%s|%s' % (lang, method), '%s("%s") left the analysable fragment: %s' % (method, w, e.what))
-                        continue
-                    n += 1
-                    ent = '%s|%s|%s' % (lang, method, w)
-                    if o.ok:
-                        if len(o.ops) != 1 and ent not in seen_bad:
-                            seen_bad.add(ent)
-                            rep.violation(R, ent, '%s("%s") on builder "%s" is accepted but issues %s: with more than one operation a failure of the '
-                                          'second leaves the digits of the first behind (and none leaves the word unconverted)' % (method, w, d.decode(), o.sig()))
-                    else:
-                        rej += 1
-                        if (o.ops or o.marker_written or o.froze) and ent not in seen_bad:
-                            seen_bad.add(ent)
-                            rep.violation(R, ent, '%s("%s") on builder "%s" returns Err(%s) but %s: a rejected word leaves a trace in the number being built' % (
-                                method, w, d.decode(), o.err,
-                                ', '.join(x for x in ['issued %s' % o.sig() if o.ops else '', 'wrote the marker %r' % (o.marker,) if o.marker_written else '',
-                                                      'froze the builder' if o.froze else ''] if x)))
-        rep.ok(R, lang + '|inventory', '%d words x %d states x 2 entry points evaluated' % (len(set(words)), len(INERT_STATES)))
+        st = sw[lang]
+        n += st['n']
+        rej += st['rej']
+        for method, (w, what) in st['errors'].items():
+            rep.anchor(R, '%s|%s' % (lang, method), '%s("%s") left the analysable fragment: %s' % (method, w, what))
+        for ent, msg in st['violations']:
+            rep.violation(R, ent, msg)
+        rep.ok(R, lang + '|inventory', '%d words x %d states x 2 entry points evaluated' % (st['words'], len(INERT_STATES)))
     rep.floor(R, n, 26000, 'evaluations')
     rep.floor(R + '#rejected', rej, 12000, 'rejected evaluations inspected')
+
+
+def rule_digit_ops(ctx, rep, langs=ALL_LANGS):
+    R = 'A8c-DIGIT-OPS'
+    rep.rule(R, 'every builder operation the interpreters issue in the word x state sweep carries ASCII digits only (non-empty digit strings; '
+                'put_digit_at a digit 1-9): the rendering stays a numeral and the float parse of the formatters cannot fail')
+    sw = sweep(ctx)
+    n = 0
+    for lang in langs:
+        st = sw[lang]
+        n += st['n']
+        for method, (w, what) in st['errors'].items():
+            rep.anchor(R, '%s|%s' % (lang, method), '%s("%s") left the analysable fragment: %s' % (method, w, what))
+        bd = st['baddigits']
+        rep.check(not bd, R, lang, 'digit arguments only', '%s issues %s: not a digit string' % (bd[0] if bd else ('', '')))
+    rep.floor(R, n, 26000, 'evaluations')
 
 
 # ---------------------------------------------------------------------------------------
@@ -528,14 +595,35 @@ O_CASES = [
 ]
 
 
+O_MULTI = [
+    (['twenty', ' ', 'o', ' ', 'x', ' ', 'o', ' ', 'twenty'], {2: False, 6: False}),
+    (['o', ' ', 'twenty', ' ', 'x', ' ', 'y', ' ', 'o', ' ', 'twenty'], {0: False, 8: False}),
+    (['nine', ' ', 'o', ' ', 'x', ' ', 'o', ' ', 'nine'], {2: False, 6: False}),
+    (['one', ' ', 'o', ' ', 'x', ' ', 'o', ' ', 'y'], {2: False, 6: True}),
+    (['x', ' ', 'o', ' ', 'y', ' ', 'hundred', ' ', 'o'], {2: True, 8: False}),
+]
+
+
 def rule_o_annotate(ctx, rep):
     R = 'A-O-ANNOTATE'
     rep.rule(R, 'English::basic_annotate, evaluated on a table of neighbour combinations (number word / ordinary word / punctuation / '
                 'text boundary, any whitespace between), marks "o" as not-a-number exactly when neither nearest non-whitespace token is a '
                 'number word; nothing else is marked; "o" behaves as "zero" in apply and apply_decimal')
-    ev = evaluator(ctx, 'en')
+    ev = real_evaluator(ctx, 'en')
     path = interp_method('en', 'basic_annotate')
     n = 0
+    # several "o" in one text: what the pass learnt about one must not change the verdict on the next (shared scratch builder)
+    for toks, marks in O_MULTI:
+        ent = 'en|multi|%s' % '|'.join(t.replace(' ', '_') for t in toks)
+        try:
+            tl = [Tok(t) for t in toks]
+            ev.call_fn(path, [ev.self_value, tl])
+        except (Unanalysable, Compound) as e:
+            rep.anchor(R, ent, 'basic_annotate left the analysable fragment: %s' % getattr(e, 'what', e))
+            continue
+        got = {i: tl[i].nan for i in marks}
+        rep.check(got == marks, R, ent, 'each "o" judged by its own neighbours', 'in %r the "o" tokens are marked %s, expected %s: an earlier word of the text '
+                  'changes how a later "o" is read' % (toks, got, marks))
     for toks, idx, want in O_CASES:
         ent = 'en|%s@%s' % ('|'.join(t.replace(' ', '_').replace('\t', '\\t').replace('\n', '\\n') for t in toks), idx)
         try:
@@ -614,3 +702,46 @@ def rule_sep_mark(ctx, rep, langs=ALL_LANGS):
                 ', 1/digits for fractions' if lang == 'es' else ''), 'format_and_value: %s' % '; '.join(bad[:2]))
         except Unanalysable as e:
             rep.anchor(R, lang + '|ordinal-template', 'format_and_value not analysable: %s' % e.what)
+
+
+# ---------------------------------------------------------------------------------------
+NEUF_CASES = [
+    # (tokens, {index of "neuf": expected not-a-number mark})
+    (['un', ' ', 'ordinateur', ' ', 'neuf'], {4: True}),
+    (['le', ' ', 'numéro', ' ', 'neuf'], {4: False}),
+    (['le', ' ', 'vingt', ' ', 'neuf'], {4: False}),
+    (['un', ' ', 'livre', ' ', 'neuf', ' ', 'cent'], {4: False}),
+    (['neuf'], {0: False}), (['vingt', '-', 'neuf'], {2: False}), (['il', ' ', 'a', ' ', 'neuf', ' ', 'ans'], {4: False}),
+    (['du', ' ', 'matériel', ' ', 'neuf', ' ', 'et', ' ', 'cher'], {4: True}),
+    (["l'", 'appareil', ' ', 'neuf', '.'], {3: True}),
+    (['un', ' ', 'beau', ' ', 'vélo', ' ', 'neuf'], {6: True}),
+    (['le', ' ', 'x', ' ', 'y', ' ', 'z', ' ', 'neuf'], {8: False}),
+    # two ambiguous words: the first context leaves digits in the scratch builder unless it is reset
+    (['le', ' ', 'vingt', ' ', 'neuf', ' ', 'un', ' ', 'ordinateur', ' ', 'neuf', ' ', 'vingt'], {4: False, 10: False}),
+    (['le', ' ', 'cent', ' ', 'neuf', ' ', 'du', ' ', 'pain', ' ', 'neuf', ' ', 'cent'], {4: False, 10: False}),
+    (['un', ' ', 'truc', ' ', 'neuf', ' ', 'mille', ' ', 'un', ' ', 'truc', ' ', 'neuf', ' ', 'mille'], {4: False, 12: False}),
+]
+
+
+def rule_neuf_annotate(ctx, rep):
+    R = 'A-NEUF-ANNOTATE'
+    rep.rule(R, 'French::basic_annotate, evaluated with the crate\'s own digit builder on a table of contexts: "neuf" after a determiner + noun is '
+                'marked not-a-number exactly when neither neighbour is a number word ("numéro neuf" excepted), nothing else is marked, and the '
+                'verdict on one "neuf" does not depend on an earlier one (shared scratch builder)')
+    ev = real_evaluator(ctx, 'fr')
+    path = interp_method('fr', 'basic_annotate')
+    n = 0
+    for toks, marks in NEUF_CASES:
+        ent = 'fr|%s' % '|'.join(t.replace(' ', '_') for t in toks)
+        try:
+            tl = [Tok(t) for t in toks]
+            ev.call_fn(path, [ev.self_value, tl])
+        except (Unanalysable, Compound) as e:
+            rep.anchor(R, ent, 'basic_annotate left the analysable fragment: %s' % getattr(e, 'what', e))
+            continue
+        n += 1
+        got = {i: tl[i].nan for i in marks}
+        others = [i for i, t in enumerate(tl) if t.nan and i not in marks]
+        rep.check(got == marks and not others, R, ent, 'marks as expected', 'in %r "neuf" is marked %s, expected %s%s' % (
+            toks, got, marks, ('; other tokens marked: %s' % others) if others else ''))
+    rep.floor(R, n, 12, 'contexts evaluated')
